@@ -178,6 +178,10 @@ func (tc *typechecker) checkArrayType(array *ast.ArrayType, length int) *typeInf
 	if b < length {
 		panic(tc.errorf(array, "array index %d out of bounds [0:%d]", length-1, b))
 	}
+	if size := elem.Type.Size(); size > 0 && uintptr(b) > ^uintptr(0)/size {
+		// reflect.ArrayOf panics if the array does not fit in the address space.
+		panic(tc.errorf(array, "type [%d]%s larger than address space", b, elem.Type))
+	}
 	tc.compilation.typeInfos[array] = &typeInfo{Properties: propertyIsType, Type: tc.types.ArrayOf(b, elem.Type)}
 	return tc.compilation.typeInfos[array]
 }
